@@ -165,6 +165,12 @@ func c07EncodeCase(e c07Enc) (op, goOut string, usable bool) {
 		return fmt.Sprintf("ok %s v=%d mask=%d %s", qr.GetMode().String(), qr.GetVersion().GetVersionNumber(),
 			qr.GetMaskPattern(), c07MatrixStr(qr.GetMatrix()))
 	})
+	if e.mask < 0 && strings.HasPrefix(goOut, "ok ") {
+		// tell the reference which mask the library chose: an equally good mask is conforming (ties are not ruled by the standard)
+		if f := strings.Fields(goOut); len(f) > 3 && strings.HasPrefix(f[3], "mask=") {
+			args = append(args, "go"+f[3])
+		}
+	}
 	return strings.Join(args, " "), goOut, usable
 }
 
